@@ -55,7 +55,7 @@ def matrix(tier):
         for p in ["SemiSpace", "Immix", "MarkSweep", "PageProtect", "GenCopy"]:
             runs.append(sc.SRun(p, layout="compressed", name="c", programs=4, ops=120,
                                 sems="0,0,0,0,1,2,2,6", seed_off=1))
-        for p in CHURN_PLANS:
+        for p in ["SemiSpace", "Immix", "MarkSweep", "GenImmix", "MarkCompact", "PageProtect"]:
             runs.append(sc.SRun(p, name="churn", heap=8, sems="0,2", programs=0, seed_off=2,
                                 extra=["--mode", "churn", "--rounds", "1"]))
         return runs
@@ -66,8 +66,9 @@ def matrix(tier):
         runs.append(sc.SRun(p, name="small", heap=8, programs=20, ops=220, seed_off=4,
                             sems="0,0,0,2,2,6"))
         runs.append(sc.SRun(p, name="rel", programs=20, ops=200, release=True, seed_off=5))
-        runs.append(sc.SRun(p, name="stress", opts="stress_factor=65536", programs=12, seed_off=6,
-                            heap=16))
+        if p != "NoGC":            # (a stress-triggered collection under NoGC is a stated precondition violation)
+            runs.append(sc.SRun(p, name="stress", opts="stress_factor=65536", programs=12, seed_off=6,
+                                heap=16))
         runs.append(sc.SRun(p, layout="compressed", name="c", programs=15, ops=200,
                             sems="0,0,0,0,1,2,2,6", seed_off=7))
         runs.append(sc.SRun(p, feats=["immortal_as_nonmoving"], name="nmimm", programs=10, seed_off=8))
